@@ -215,6 +215,11 @@ def rechunk(stream: bytes, sizes):
     toks = []
     i = 0
     k = 0
+    # the model re-parses the whole buffer after every read (as the code does): keep the number of
+    # reads of one case bounded
+    if sizes and len(stream) / (sum(sizes) / len(sizes)) > 300:
+        f = int(len(stream) / 300 / (sum(sizes) / len(sizes))) + 1
+        sizes = [x * f for x in sizes]
     while i < len(stream):
         n = sizes[k % len(sizes)] if sizes else len(stream)
         k += 1
